@@ -467,6 +467,15 @@ type aolAuthMonitor struct {
 	grantsOK map[string]bool
 }
 
+// canonAddr: the account a bech32 string names (lower- and upper-case spellings name the same one); the string itself if
+// it does not decode
+func canonAddr(s string) string {
+	if a, err := sdk.AccAddressFromBech32(s); err == nil {
+		return "@" + string(a)
+	}
+	return s
+}
+
 func writerListed(x *Exec, owner, topic, writer string) bool {
 	o, err1 := sdk.AccAddressFromBech32(owner)
 	w, err2 := sdk.AccAddressFromBech32(writer)
@@ -526,7 +535,7 @@ func (m *aolAuthMonitor) BeforeTx(x *Exec, tx *TxInfo) {
 			default:
 				owner, topic, writer = pm.Args[2], pm.Args[0], pm.Args[1]
 			}
-			k := owner + "|" + topic + "|" + writer
+			k := canonAddr(owner) + "|" + topic + "|" + canonAddr(writer)
 			m.writers[k] = writerListed(x, owner, topic, writer)
 		}
 		if pm.InExec {
@@ -569,14 +578,14 @@ func (m *aolAuthMonitor) AfterTx(x *Exec, tx *TxInfo, result string) {
 			if !authorisedBy(x, tx, pm, pm.Args[4], m.grantsOK) {
 				x.Flag("C02-writers-by-owner", "AddWriter accepted without the owner's authorisation")
 			}
-			m.writers[pm.Args[4]+"|"+pm.Args[0]+"|"+pm.Args[3]] = true
+			m.writers[canonAddr(pm.Args[4])+"|"+pm.Args[0]+"|"+canonAddr(pm.Args[3])] = true
 		case "aol.DeleteWriter":
 			if !authorisedBy(x, tx, pm, pm.Args[2], m.grantsOK) {
 				x.Flag("C02-writers-by-owner", "DeleteWriter accepted without the owner's authorisation")
 			}
-			m.writers[pm.Args[2]+"|"+pm.Args[0]+"|"+pm.Args[1]] = false
+			m.writers[canonAddr(pm.Args[2])+"|"+pm.Args[0]+"|"+canonAddr(pm.Args[1])] = false
 		case "aol.AddRecord":
-			if !m.writers[pm.Args[4]+"|"+pm.Args[0]+"|"+pm.Args[3]] {
+			if !m.writers[canonAddr(pm.Args[4])+"|"+pm.Args[0]+"|"+canonAddr(pm.Args[3])] {
 				x.Flag("C02-listed-writer", fmt.Sprintf("AddRecord by %s accepted although it is not in the writer list of (%s,%q)", pm.Args[3], pm.Args[4], pm.Args[0]))
 			}
 			if !authorisedBy(x, tx, pm, pm.Args[3], m.grantsOK) {
